@@ -50,10 +50,19 @@ pub fn filter_of(c: &FiltCase) -> FilterSpec {
     let addr = |i: u16, client: bool| -> IpAddr {
         let x = &conns[idx(i, conns.len())];
         let (a, b) = x.ips();
-        if client {
-            a.src()
+        let picked = if client { a.src() } else { b.src() };
+        // one selector in four lists the address in its other family's clothing instead: the IPv4-mapped IPv6 form of an IPv4
+        // endpoint, the embedded IPv4 address of an IPv4-mapped endpoint. Neither is the endpoint the analyzer reports, so neither matches
+        if i % 4 == 3 {
+            match picked {
+                IpAddr::V4(v) => IpAddr::V6(v.to_ipv6_mapped()),
+                IpAddr::V6(v) => match v.octets() {
+                    [0, 0, 0, 0, 0, 0, 0, 0, 0, 0, 0xff, 0xff, a, b, c, d] => IpAddr::V4(std::net::Ipv4Addr::new(a, b, c, d)),
+                    _ => IpAddr::V6(v),
+                },
+            }
         } else {
-            b.src()
+            picked
         }
     };
     let port = c.port_sel.map(|(s, k, any)| {
